@@ -11,4 +11,4 @@ CONF = {
     'shard_timeout': 900,
 }
 
-CHECK = None
+CHECK = {'text': 'Theorem (history_repeatable) for every history of injections of any length, each step with its own host oracle: the k-th result equals the declarative result computed from the loaded files and the host oracle of that step (no memory across injections; unspecified node attributes come from the host oracle of that application: attributes_from_current_host, via C03). That the real code leaves the cached Specs and devices untouched is decided by the tie: histories of 2-5 injections with the host device nodes re-created with other type/major/minor in between (mknod), the JSON image of every cached Spec and device through the query API compared with the one before the first injection after every step, every cached Spec written back through the library and read back equal, equal requests giving equal results.', 'note': "Trusted: as C02/C03. Partial by construction: in a pure model the cache is not an output of injection, so 'cache unchanged' and 'write-back unchanged' are established by the correspondence runs (cache image, write-back), not by a theorem. No axioms.", 'technique': 'Coq proof (history theorem over the inject model) + differential correspondence on injection histories with re-created host nodes via vm_compute'}
